@@ -10,7 +10,7 @@ from specmc.sandbox import Sandbox
 
 ID = "C14"
 LEVEL = "model_checking"
-RULE = ("all ordered lists of <=2 (thorough: <=3) distinct strings over a 16-string alphabet and of integers over {-2,-1,0,1,2,10}, x null "
+RULE = ("all ordered lists of <=2 (thorough: <=3) distinct strings over a 17-string alphabet and of integers over {-2,-1,0,1,2,10}, x null "
         "member x default (none / first / non-member) x inline vs referenced x Enum classes vs literal_enums; consts over 10 values x "
         "required x typed/untyped; inputs: every listed value, null, and a probe set of values not listed (case variants, trimmed, "
         "suffixed, other type); non-trivial = the holder model was generated and every listed value exercised")
@@ -18,7 +18,8 @@ FLOOR = 0.4
 ASSUMPTIONS = ["the pinned uncaught ValueError('Duplicate key ...') counts as 'reported' for C14 (it is C06's business as a crash)"]
 
 STRS = ["a", "A", "b", "a b", "a-b", "a.b", "a_b", "1a", "1", "", " a", "é", "+a", "a!",
-        "value_1", "Value_0"]        # values that spell the positional member names given to values that cannot start an identifier
+        "value_1", "Value_0",        # values that spell the positional member names given to values that cannot start an identifier
+        'a"b']                       # a double quote: escaped once, inside one literal (other hostile characters are C05's)
 INTS = [-2, -1, 0, 1, 2, 10]
 CONSTS = ["k", "", "a b", 0, 3, -1, 1.5, 0.0, True, False]
 
